@@ -30,10 +30,10 @@ GROUP = dict(
     name="speed", bin="avh_speed",
     model_spec="MCSpeedProfile.tla", trace_spec="SpeedProfileTrace.tla", trace_cfg="SpeedProfileTrace.cfg",
     models={
-        "quick": [dict(cfg="MCSpeedProfile_quickA.cfg", emit=True, max_emit=6000),
+        "quick": [dict(cfg="MCSpeedProfile_quickA.cfg", emit=True, max_emit=4000),
                   dict(cfg="MCSpeedProfile_gates.cfg", emit=True),
-                  dict(cfg="MCSpeedProfile_makeup.cfg", emit=True, max_emit=1500),
-                  dict(cfg="MCSpeedProfile_quickN.cfg", emit=True, max_emit=1500),
+                  dict(cfg="MCSpeedProfile_makeup.cfg", emit=True, max_emit=1200),
+                  dict(cfg="MCSpeedProfile_quickN.cfg", emit=True, max_emit=1000),
                   dict(cfg="MCSpeedProfile_quickB.cfg", emit=False, timeout=300, coverage=False)],
         "thorough": [dict(cfg="MCSpeedProfile_quickA.cfg", emit=True),
                      dict(cfg="MCSpeedProfile_gates.cfg", emit=True),
